@@ -895,3 +895,38 @@ func mayAliasMemory(t types.Type) bool {
 	}
 	return true
 }
+
+// contractSignature: the text of a function's contract clauses ("" if it has none or cannot be shared);
+// functions with equal signatures can be called through one modular call.
+func (p *Program) contractSignature(c *ssa.Function) string {
+	{
+		con := p.contractFor(c)
+		if con == nil || con.Inline || len(c.FreeVars) > 0 {
+			return ""
+		}
+		var sb strings.Builder
+		for _, r := range con.Requires {
+			sb.WriteString("R:" + r.Src + ";")
+		}
+		for _, r := range con.Ensures {
+			sb.WriteString("E:" + r.Src + ";")
+		}
+		for _, r := range con.Modifies {
+			sb.WriteString("M:" + r.Src + ";")
+		}
+		for _, r := range con.PanicsWith {
+			sb.WriteString("PW:" + r.Src + ";")
+		}
+		for _, r := range con.Panics {
+			sb.WriteString("P:" + r.When.Src + ";")
+		}
+		for _, l := range con.Lets {
+			sb.WriteString("L:" + l.Name + l.Src + ";")
+		}
+		sb.WriteString(fmt.Sprint(con.NoPanic, len(con.Ghosts)))
+		for i, prm := range c.Params {
+			sb.WriteString(fmt.Sprint(i, prm.Name()))
+		}
+		return sb.String()
+	}
+}
